@@ -66,10 +66,10 @@ def parse_contracts(path):
         if not line.strip() or line.lstrip().startswith("#"):
             continue
         if line.startswith("@fn"):
-            m = re.match(r"@fn\s+(\w+)(?:\s+(\d+))?(?:\s+in\s+`([^`]*)`)?\s*\|\s*(.*)$", line)
+            m = re.match(r"@fn\s+(\w+)(\?)?(?:\s+(\d+))?(?:\s+in\s+`([^`]*)`)?\s*\|\s*(.*)$", line)
             if not m:
                 raise Undecided("%s:%d: bad @fn line" % (path, ln))
-            cur = dict(fn=m.group(1), ordinal=int(m.group(2) or 1), ctx=m.group(3), props=m.group(4).split(),
+            cur = dict(fn=m.group(1), optional=bool(m.group(2)), ordinal=int(m.group(3) or 1), ctx=m.group(4), props=m.group(5).split(),
                        clauses=[], line=ln, cfg=None)
             out.append(cur)
             continue
@@ -126,6 +126,49 @@ def find_fn_line(lines, name, ordinal, ctx=None):
     return None
 
 
+def fn_params(lines, idx):
+    """names of the non-self parameters of the fn whose signature starts at lines[idx] (None for a
+    parameter that is a pattern or `_`)"""
+    text = " ".join(lines[idx: idx + 12])
+    i = text.index("fn ")
+    j = text.index("(", i)
+    # generic parameter lists may contain parentheses-free text only; find the matching ')'
+    depth, k = 0, j
+    while k < len(text):
+        if text[k] in "(<[":
+            depth += 1
+        elif text[k] in ")>]":
+            if text[k] == ">" and k > 0 and text[k - 1] == "-":
+                pass
+            else:
+                depth -= 1
+                if depth == 0:
+                    break
+        k += 1
+    inside = text[j + 1: k]
+    parts, depth, cur = [], 0, ""
+    for ch_i, ch in enumerate(inside):
+        if ch in "(<[":
+            depth += 1
+        elif ch in ")>]" and not (ch == ">" and ch_i > 0 and inside[ch_i - 1] == "-"):
+            depth -= 1
+        if ch == "," and depth == 0:
+            parts.append(cur)
+            cur = ""
+        else:
+            cur += ch
+    if cur.strip():
+        parts.append(cur)
+    names = []
+    for prm in parts:
+        prm = prm.strip()
+        if re.match(r"^(&\s*('\w+\s+)?)?(mut\s+)?self\b", prm):
+            continue
+        m = re.match(r"^(?:mut\s+)?(\w+)\s*:", prm)
+        names.append(m.group(1) if m and m.group(1) != "_" else None)
+    return names
+
+
 def inject_contracts(src_dir, contracts, report):
     """Adds cfg_attr(kani, kani::requires/ensures/modifies) lines above the anchored fn lines."""
     for src, items in contracts.items():
@@ -136,11 +179,22 @@ def inject_contracts(src_dir, contracts, report):
         ins = []
         for it in items:
             idx = find_fn_line(lines, it["fn"], it["ordinal"], it.get("ctx"))
+            if idx is None and it.get("optional"):
+                report.append(dict(file=src, fn=it["fn"], ordinal=it["ordinal"], props=it["props"], clauses=[],
+                                   skipped="optional anchor not found (private helper removed or inlined)"))
+                continue
             if idx is None:
                 raise Undecided("anchor lost: %s `fn %s` #%d%s" % (src, it["fn"], it["ordinal"], (" in `%s`" % it["ctx"]) if it.get("ctx") else ""))
             indent = re.match(r"\s*", lines[idx]).group(0)
             new = []
+            params = fn_params(lines, idx)
             for kind, expr in it["clauses"]:
+                def _sub(m, params=params, it=it, src=src):
+                    n = int(m.group(1))
+                    if n < 1 or n > len(params) or params[n - 1] is None:
+                        raise Undecided("contract on %s fn %s refers to parameter $%d which has no plain name in this tree" % (src, it["fn"], n))
+                    return params[n - 1]
+                expr = re.sub(r"\$(\d+)", _sub, expr)
                 for short, full in ABBREV:
                     expr = re.sub(r"\b%s::" % short, full + "::", expr)
                 cond = "kani" if not it.get("cfg") else "all(kani, %s)" % it["cfg"]
